@@ -12,21 +12,21 @@ Lemma special_chars_matches_source (t : N) :
   assoc t special_chars = go_assoc_z (Z.of_N t) src_parse_specialChars.
 Proof.
   rewrite <- (assoc_z_ext (fun x : bstr => x) bstr_eqb special_chars src_parse_specialChars);
-    [destruct (assoc t special_chars); reflexivity|exact bstr_eqb_true|vm_compute; reflexivity|vm_compute; reflexivity].
+    [destruct (assoc t special_chars); reflexivity|exact st_bstr_eqb_true|vm_compute; reflexivity|vm_compute; reflexivity].
 Qed.
 
 (* ---- isOneOf, inStringSlice ---- *)
 Lemma one_of_matches_source (c : N) (l : list N) : one_of c l = src_parse_isOneOf (Z.of_N c) (map Z.of_N l).
 Proof.
   unfold one_of, src_parse_isOneOf. rewrite find_existsb, existsb_map.
-  apply existsb_ext. intros a. lia.
+  apply st_existsb_ext. intros a. lia.
 Qed.
 
 (* parseAttrs tests inStringSlice(name, allowedNames); Model/Parser.v attrs_loop writes the test inline *)
 Lemma attr_allowed_matches_source (item : bstr) (group : list bstr) :
   existsb (bstr_eqb item) group = src_parse_inStringSlice item group.
 Proof.
-  unfold src_parse_inStringSlice. rewrite find_existsb. apply existsb_ext. intros a. apply bstr_eqb_sym.
+  unfold src_parse_inStringSlice. rewrite find_existsb. apply st_existsb_ext. intros a. apply st_bstr_eqb_sym.
 Qed.
 
 (* ---- parseAutoescape: the attribute text -> mode code, anything else t.errorf ---- *)
@@ -46,7 +46,7 @@ Proof.
              | v => fail
              | _ => let E := fresh "E" in
                     destruct (bstr_eqb v lit) eqn:E;
-                    [apply bstr_eqb_true in E; subst v; vm_compute; reflexivity|]
+                    [apply st_bstr_eqb_true in E; subst v; vm_compute; reflexivity|]
              end
          end.
   cbv [autoescape_attr_table assoc_s].
